@@ -185,6 +185,10 @@ class OptimizerRC2(Optimizer):
         self, wcnf: WCNF, ignore: list[int] = [], deadline: Deadline | None = None
     ) -> list[list[int]]:
         xMins: list[set[int]] = []
+        if any(len(clause) == 0 for clause in wcnf.hard):
+            # an empty hard clause cannot be satisfied: no model, hence no correction subset
+            # (not every SAT engine accepts an empty clause, e.g. cd19 raises IndexError)
+            return []
         sat_solver = str(self.epistemic_state.get("pmaxsat_solver", ""))[4:]
         if not sat_solver:
             sat_solver = "g3"
